@@ -210,7 +210,8 @@ class Client(object):
         return self.wait_reply(serial, timeout)
 
     def bus_call(self, member, sig=b"", body=(), timeout=WATCHDOG, **kw):
-        return self.call(BUS, BUS_PATH, BUS, member, sig, body, timeout=timeout, **kw)
+        serial = self.call_async(BUS, BUS_PATH, BUS, member, sig, body, **kw)
+        return self.wait_reply(serial, timeout, sender=BUS)
 
     def bus_call_async(self, member, sig=b"", body=(), **kw):
         return self.call_async(BUS, BUS_PATH, BUS, member, sig, body, **kw)
@@ -306,11 +307,26 @@ class Client(object):
             except Closed:
                 return
 
-    def wait_reply(self, serial, timeout=WATCHDOG):
-        """Read until a METHOD_RETURN/ERROR with REPLY_SERIAL == serial arrives; everything else read
-        meanwhile stays in the inbox (in order)."""
+    def _is_reply(self, rec, serial, sender):
+        m = rec.msg
+        if m.type not in (2, 3):
+            return False
+        k = m.known()
+        if k.get(5) != serial:
+            return False
+        # an eavesdropper / monitor also sees replies addressed to OTHER connections whose REPLY_SERIAL may
+        # collide with one of our serials: a reply to us is addressed to us
+        if self.unique is not None and k.get(6) not in (None, self.unique):
+            return False
+        if sender is not None and k.get(7) != sender:
+            return False
+        return True
+
+    def wait_reply(self, serial, timeout=WATCHDOG, sender=None):
+        """Read until a METHOD_RETURN/ERROR with REPLY_SERIAL == serial addressed to us (and, if given,
+        from `sender`) arrives; everything else read meanwhile stays in the inbox (in order)."""
         for i, rec in enumerate(self.inbox):
-            if rec.msg.type in (2, 3) and rec.msg.known().get(5) == serial:
+            if self._is_reply(rec, serial, sender):
                 return self.inbox.pop(i)
         deadline = time.time() + timeout
         while True:
@@ -318,7 +334,7 @@ class Client(object):
             if rec is None:
                 self._fill(deadline)
                 continue
-            if rec.msg.type in (2, 3) and rec.msg.known().get(5) == serial:
+            if self._is_reply(rec, serial, sender):
                 return rec
             self.inbox.append(rec)
 
